@@ -1,6 +1,8 @@
 import TexcraftModel.Lemmas.C10Checks
 import TexcraftModel.Lemmas.C10Ser
 import TexcraftModel.Lemmas.C10Cst
+import TexcraftModel.Lemmas.C10CstRt
+import TexcraftModel.Lemmas.C10Num
 
 /-!
 # C10 — property theorems (TFM reader front end)
@@ -18,6 +20,9 @@ import TexcraftModel.Lemmas.C10Cst
                       writes for a `ShapeOK` file never panics, is `Consistent`, and is accepted
 * `cst_total`, `cst_step_consumes`, `cst_reads_everything`  the PL lexer/CST builder always
                       returns a tree and warnings and reads the whole input
+* `cst_balanced_roundtrip`  the canonical rendering of a well-formed forest reads back without
+                      warnings as a forest of the same shape
+* `number_total`      the `FixWord` reader's `unwrap`s never fail
 * `clamp_total`, `clamp_tag_total`, `clamp_piece_total`   the index clamps of `validate_and_fix`
 * the two `example`s at the end: the pre-fix code panics at the witnesses C10-a and C10-b
 
@@ -296,6 +301,70 @@ theorem cst_total (alnum : Char → Bool) (text : List Char) :
 theorem cst_reads_everything (alnum : Char → Bool) (l : List Char) :
     ∃ st, Cst.loop alnum (l.length + 1) ⟨[], [], [], 0, l⟩ = some st ∧ st.rest = [] :=
   Cst.loop_some alnum (l.length + 1) ⟨[], [], [], 0, l⟩ (by simp)
+
+/-- **Round trip of the CST.** The canonical one-line rendering (`(` key blank data children
+`)`, comments as `(COMMENT` text `)`) of any well-formed forest — keys made of key characters
+and different from `COMMENT`, data without parentheses that does not begin with a blank,
+comments with balanced parentheses that do not begin with a key character, no `\r`
+(`Cst.WFAll`) — is read back by the model of `Cst::from_pl_source_code` **without any warning**
+as a forest of the same shape: same keys, data, comment texts and nesting (`stripAll`
+forgets the spans, which necessarily differ). Holds for every notion of "alphanumeric" for
+which the letters of `COMMENT` are alphanumeric and blank and parentheses are not. Unbounded
+in depth and width (mutual induction over the nested tree). -/
+theorem cst_balanced_roundtrip (alnum : Char → Bool) (ha : Cst.AlnumOK alnum) (ns : List Cst.Node)
+    (hwf : Cst.WFAll alnum ns) :
+    ∃ ns', Cst.cstModel alnum (Cst.renderAll ns) = .ok ns' [] ∧ Cst.stripAll ns' = Cst.stripAll ns :=
+  Cst.roundtrip alnum ha ns hwf
+
+/-- Non-vacuity: ASCII `isAlphanum` qualifies, and a nested forest with a comment is well formed. -/
+example : Cst.AlnumOK Char.isAlphanum := ⟨by decide, by decide, by decide, by decide⟩
+example : Cst.WFAll Char.isAlphanum
+    [.regular 0 ['A', '/'] ⟨0, 0⟩ ['x', ' ', 'y'] ⟨0, 0⟩
+      [.comment [' ', '(', 'a', ')'], .regular 0 [] ⟨0, 0⟩ [] ⟨0, 0⟩ [] ⟨0, 0⟩] ⟨0, 0⟩] := by
+  simp only [Cst.WFAll, Cst.WF, List.mem_cons, List.not_mem_nil, or_false, forall_eq_or_imp, forall_eq,
+    and_true, false_imp_iff, implies_true]
+  decide
+
+/-! ## The number readers of `pl/ast.rs` -/
+
+/-- **The `FixWord` reader never panics.** Every `checked_mul(..).unwrap()` /
+`checked_add(..).unwrap()` and the unchecked `acc + 10` of `impl Parse for FixWord` succeed on
+every input: the integer part is clamped at 2048 before it is multiplied, a fraction has at most
+seven digits of `2^21·d`, and the "too big" test runs before `integer_part * 2^20` is formed.
+(The `u32` and `u8` readers have no `unwrap` on arithmetic at all: overflow is the
+`IntegerIsTooBig` / `SmallIntegerIsTooBig` branch, and their models are total functions.) -/
+theorem number_total (i : Num.In) : Num.parseFix i ≠ .panic := by
+  unfold Num.parseFix
+  simp only []
+  split
+  · intro h; cases h
+  · split
+    · intro h; cases h
+    · rename_i c t _ _
+      generalize hs : Num.signs _ _ false = s
+      obtain ⟨ip, k, hk, hip0, hip1⟩ := Num.intPart_ok s.2.rest s.2.pos 0 (by omega) (by omega)
+      simp only [hk]
+      obtain ⟨fp, m, hfr, hfp0, hfp1⟩ := Num.fracPart_ok k
+      simp only [hfr]
+      have hone : Num.fixOne = 1048576 := rfl
+      by_cases hbig : ip ≥ 2048 ∨ (fp ≥ Num.fixOne ∧ ip = 2047)
+      · rw [if_pos hbig]; intro h; cases h
+      · rw [if_neg hbig]
+        rw [hone] at hbig
+        have hip : ip ≤ 2047 := by omega
+        rw [Num.ck32_some (ip * Num.fixOne) (by rw [hone]; omega)]
+        simp only []
+        have hsum : ip * 1048576 + fp ≤ 2147483647 := by
+          by_cases h47 : ip = 2047
+          · have : ¬ fp ≥ 1048576 := fun hf => hbig (Or.inr ⟨hf, h47⟩)
+            omega
+          · omega
+        rw [Num.ck32_some (ip * Num.fixOne + fp) (by rw [hone]; omega)]
+        simp only []
+        by_cases hneg : s.1 = true
+        · rw [if_pos hneg, Num.ck32_some ((ip * Num.fixOne + fp) * -1) (by rw [hone]; omega)]
+          intro h; cases h
+        · rw [if_neg hneg]; intro h; cases h
 
 /-! ## The index clamps of `validate_and_fix` -/
 
